@@ -27,7 +27,62 @@ EXPLANATION = (
     "relabelled target, LC-equivalence of the listed graph, or completeness of duplicate removal.")
 
 
+def rule_sort_rows_intact(ctx: Ctx) -> None:
+    """result.sort-rows: SolverResult keeps one list per column; sort_by(prop) has to apply *one* permutation to every column, so that a
+    row (circuit, score, relabel map ...) stays a row.  The method body is interpreted (gqsa/minterp.py) on a three-column table with
+    three rows for every order of the key column and every position of the key among the columns: afterwards the rows are a
+    permutation of the original rows and the key column is non-decreasing."""
+    import itertools
+    from .. import minterp
+    repo = ctx.repo
+    rel = "graphiq/solvers/solver_result.py"
+    m = repo.module(rel)
+    fn = repo.anchor(rel, "SolverResult.sort_by")
+    ctx.touch(m, fn)
+    P = func_params(fn)[1]
+    cols = ["c0", "c1", "c2"]
+    n_models = 0
+    for key in cols:
+        for perm in itertools.permutations(range(3)):
+            n_models += 1
+            data = {c_: [10 * (j + 1) + r for r in range(3)] for j, c_ in enumerate(cols)}
+            data[key] = [10 * (cols.index(key) + 1) + v for v in perm]
+            rows = set(zip(*[data[c_] for c_ in cols]))
+            env = {"self._data": data, P: key}
+
+            def oracle(c, it):
+                if call_name(c) == "len" and len(c.args) == 1 and norm(c.args[0]) == "self":
+                    return 3
+                return NotImplemented
+            try:
+                minterp.Interp(env, oracle).run(fn.body)
+            except minterp.Return:
+                pass
+            except minterp.Unmodelled as e:
+                raise AnalysisError(f"SolverResult.sort_by: not decidable on the table model ({e})")
+            except minterp.ModelError as e:
+                ctx.fail("result.sort-rows", m, fn, f"SolverResult.sort_by fails on a 3 x 3 table ({e})", func="SolverResult.sort_by", construct="sort_by: fails in the table model")
+                return
+            out = env["self._data"]
+            if not isinstance(out, dict) or list(out.keys()) != cols:
+                raise AnalysisError("SolverResult.sort_by: the table is no longer a dict of the same columns after sorting")
+            got = list(zip(*[out[c_] for c_ in cols]))
+            kc = list(out[key])
+            if set(got) != rows or len(got) != 3:
+                ctx.fail("result.sort-rows", m, fn,
+                         f"SolverResult.sort_by('{key}') on columns {cols} with {key} = {data[key] if False else [10 * (cols.index(key) + 1) + v for v in perm]}: the rows afterwards are {got}, "
+                         f"not a permutation of the original rows — the columns were not reordered by one common permutation, so a circuit is paired with another "
+                         f"entry's score / relabel map", func="SolverResult.sort_by", construct="sort_by: columns permuted differently")
+                return
+            if kc != sorted(kc):
+                ctx.fail("result.sort-rows", m, fn, f"SolverResult.sort_by('{key}') leaves the key column as {kc}, which is not sorted",
+                         func="SolverResult.sort_by", construct="sort_by: key column not sorted")
+                return
+    ctx.ok("result.sort-rows", m, fn, what=f"{n_models} table models: rows stay rows, key column sorted")
+
+
 def run(ctx: Ctx) -> None:
+    rule_sort_rows_intact(ctx)
     from ..rules import solvers as _slvf
     _slvf.rule_frontinsert_owner(ctx)
     from .c02 import rule_index_space
@@ -386,37 +441,59 @@ def _dedup_model(ctx, m, fn, res, X, defs, dels) -> None:
         if call_name(c) in ("np.array_equal", "nx.utils.graphs_equal") and len(c.args) == 2:
             return it.ev(c.args[0]) == it.ev(c.args[1])
         return NotImplemented
+    import itertools
+
+    class _Info(dict):
+        def __missing__(self, key):
+            raise minterp.Unmodelled(f"result field `{key}` is not part of the list model")
+    reads_scores = any(isinstance(x, ast.Constant) and x.value == "score" for st in block for x in ast.walk(st))
     n_models = 0
     for n in range(0, 6):
         for part in minterp.partitions(n):
-            n_models += 1
-            env = {res: [("entry", k) for k in range(n)], X: list(part)}
-            it = minterp.Interp(env, oracle)
-            why = None
-            try:
-                it.run(block)
-            except minterp.Unmodelled as e:
-                raise AnalysisError(f"solve(): duplicate filter uses a construct the list model does not cover: {e}")
-            except minterp.ModelError as e:
-                why = f"the filter fails ({e})"
-            except minterp.Return:
-                raise AnalysisError("solve(): return inside the duplicate filter")
-            if why is None:
-                left = env[res]
-                if not isinstance(left, list) or any(not (isinstance(x, tuple) and x[0] == "entry") for x in left):
-                    raise AnalysisError("solve(): the result list does not hold result entries after the filter")
-                cls = [part[x[1]] for x in left]
-                if len(set(cls)) != len(cls):
-                    dup = next(c_ for c_ in cls if cls.count(c_) > 1)
-                    same = [k for k in range(n) if part[k] == dup]
-                    why = f"entries {[x[1] for x in left if part[x[1]] == dup]} survive although they list the same graph (entries {same} are equal)"
-                elif set(cls) != set(part):
-                    why = f"a listed graph disappears altogether (surviving entries {[x[1] for x in left]})"
-            if why:
-                ctx.fail("dedup.model", m, block[0], f"solve(): duplicate filter, {n} result entries with equal-graph classes {list(part)}: {why}",
-                         func="AlternateTargetSolver.solve", construct=f"solve: duplicate filter wrong in the list model")
-                return
-    ctx.ok("dedup.model", m, block[0], what=f"{n_models} partitions of up to 5 entries: survivors pairwise different, every graph kept once")
+            # every entry is (circuit_k, info_k) with info_k = {"score", "map"}; first with all scores equal, then (when the filter reads
+            # scores, up to four entries) with every strict order of the scores
+            score_models = [tuple(0 for _ in range(n))]
+            if reads_scores and 2 <= n <= 4:
+                score_models += list(itertools.permutations(range(n)))
+            for scores in score_models:
+                n_models += 1
+                infos = [_Info(score=scores[k], map=("map", k)) for k in range(n)]
+                originals = [(("circuit", k), infos[k]) for k in range(n)]
+                env = {res: list(originals), X: list(part)}
+                it = minterp.Interp(env, oracle)
+                why = None
+                try:
+                    it.run(block)
+                except minterp.Unmodelled as e:
+                    raise AnalysisError(f"solve(): duplicate filter uses a construct the list model does not cover: {e}")
+                except minterp.ModelError as e:
+                    why = f"the filter fails ({e})"
+                except minterp.Return:
+                    raise AnalysisError("solve(): return inside the duplicate filter")
+                if why is None:
+                    left = env[res]
+                    if not isinstance(left, list) or any(not (isinstance(x, tuple) and len(x) == 2 and isinstance(x[0], tuple) and x[0][:1] == ("circuit",)
+                                                              and isinstance(x[1], dict)) for x in left):
+                        raise AnalysisError("solve(): the result list does not hold result entries after the filter")
+                    ks = [x[0][1] for x in left]
+                    cls = [part[k] for k in ks]
+                    mixed = [(x[0][1], x[1].get("map", (None, None))[1], x[1].get("score")) for x in left
+                             if x[1].get("map") != ("map", x[0][1]) or x[1].get("score") != scores[x[0][1]]]
+                    if len(set(cls)) != len(cls):
+                        dup = next(c_ for c_ in cls if cls.count(c_) > 1)
+                        same = [k for k in range(n) if part[k] == dup]
+                        why = f"entries {[k for k in ks if part[k] == dup]} survive although they list the same graph (entries {same} are equal)"
+                    elif set(cls) != set(part):
+                        why = f"a listed graph disappears altogether (surviving entries {ks})"
+                    elif mixed:
+                        c_k, m_k, sc_ = mixed[0]
+                        why = (f"with scores {list(scores)} a surviving entry pairs the circuit of entry {c_k} with the relabel map of entry {m_k} and the score {sc_}: "
+                               f"entries that list the same graph were reached from different relabellings, so the circuit no longer generates the target renamed by the map stored beside it")
+                if why:
+                    ctx.fail("dedup.model", m, block[0], f"solve(): duplicate filter, {n} result entries with equal-graph classes {list(part)}: {why}",
+                             func="AlternateTargetSolver.solve", construct=f"solve: duplicate filter wrong in the list model")
+                    return
+    ctx.ok("dedup.model", m, block[0], what=f"{n_models} models (partitions of up to 5 entries, score orders): survivors pairwise different, every graph kept once, every entry intact")
 
 
 def rule_str_to_op(ctx: Ctx) -> None:
@@ -541,6 +618,7 @@ def _edit_dedup_helper(src: str) -> str:
 
 
 KNOCKOUTS = [
+    Knockout("sort-by-order-recomputed-per-column", "graphiq/solvers/solver_result.py", sub_once("        for j, p in enumerate(data_dict.keys()):\n            self._data[p] = [sorted_data_tuple[i][j] for i in range(n_result)]", "        for p in self._data:\n            order = sorted(range(len(self)), key=lambda i: self._data[prop][i])\n            self._data[p] = [self._data[p][i] for i in order]"), "result.sort-rows", "permutation of the original rows"),
     Knockout("target-graph-renumbered", ATS, sub_once("            self.target_graph = target\n", "            self.target_graph = nx.convert_node_labels_to_integers(target)\n"), "relabel.target-labels", "renumbered"),
     Knockout("first-isomorph-map-by-position", ATS, sub_once("            rmap = get_relabel_map(self.target_graph, iso_graph)\n", "            rmap = get_relabel_map(self.target_graph, iso_graph)\n            if iso_graph is iso_graphs[0]:\n                rmap = {-1: \"self\", **dict(zip(self.target_graph.nodes(), iso_graph.nodes()))}\n"), "flow.exactly-once", "without the matcher"),
     Knockout("dedup-skips-new-groups", ATS, sub_once("            if not already_found:\n                s = {i}", "            if already_found:\n                s = {i}"), "dedup.model", "survive although"),
